@@ -24,6 +24,10 @@ func main() {
 		os.Exit(2)
 	}
 	mode := os.Args[1]
+	if mode == "plugin" {
+		pluginMain()
+		return
+	}
 	fs := flag.NewFlagSet(mode, flag.ExitOnError)
 	ename := fs.String("e", "", "engine")
 	seed := fs.Int64("seed", 1, "PRNG seed")
